@@ -12,6 +12,10 @@ var c17WebGrans = []string{"", "", "functions", "filefunctions", "files", "lines
 // c17Gen: one generated case. Small alphabets make recursion, shared sources, equal names in
 // different files and inlined/non-inlined copies of one function frequent.
 func c17Gen(r *Rng, mode string, n int) c17Case {
+	seq := mode == "webseq" // a sequence of requests on one server, differing in one URL parameter
+	if seq {
+		mode = "web"
+	}
 	o := &GenOpts{
 		MaxSampleTypes: 3,
 		MaxFuncs:       7,
@@ -70,6 +74,35 @@ func c17Gen(r *Rng, mode string, n int) c17Case {
 			f.SystemName = f.Name
 		}
 	}
+	// inline-chain strategy: the same function twice in a row inside one location (a function
+	// inlined into itself, recursion that was inlined) — with equal or different line numbers, so
+	// that the entries become identical once a granularity drops the line numbers
+	for _, l := range p.Location {
+		if len(l.Line) > 0 && r.Chance(25) {
+			j := r.Intn(len(l.Line))
+			dup := l.Line[j]
+			if r.Bool() {
+				dup.Line = int64(r.Intn(200))
+			}
+			l.Line = append(l.Line[:j+1], append([]profile.Line{dup}, l.Line[j+1:]...)...)
+			if r.Chance(30) { // three in a row
+				l.Line = append(l.Line[:j+1], append([]profile.Line{dup}, l.Line[j+1:]...)...)
+			}
+		}
+	}
+	if seq {
+		for len(p.SampleType) < 2 { // the selected sample type is one of the parameters that change
+			p.SampleType = append(p.SampleType, &profile.ValueType{Type: "extra", Unit: "count"})
+			for _, s := range p.Sample {
+				s.Value = append(s.Value, int64(r.Intn(1000))-300)
+			}
+		}
+		for _, s := range p.Sample { // labels for tagfocus/tagignore
+			if s.Label == nil && r.Chance(70) {
+				s.Label = map[string][]string{"k": {[]string{"v", "w"}[r.Intn(2)]}}
+			}
+		}
+	}
 	// recursion strategy: repeat a location of the stack (directly or mutually)
 	for _, s := range p.Sample {
 		if len(s.Location) > 0 && r.Chance(35) {
@@ -98,6 +131,57 @@ func c17Gen(r *Rng, mode string, n int) c17Case {
 	if cs.Gran != "raw" {
 		cs.NoInlines = r.Chance(20)
 		cs.ShowColumns = r.Chance(30)
+	}
+	if seq {
+		var names []string
+		for _, f := range p.Function {
+			if f.Name != "" && len(f.Name) < 40 {
+				names = append(names, f.Name)
+			}
+		}
+		change := func(a c17Req) c17Req { // exactly one parameter differs (or, rarely, none: a reload)
+			b := a
+			b.Filters = map[string]string{}
+			for k, v := range a.Filters {
+				b.Filters[k] = v
+			}
+			switch r.Intn(9) {
+			case 0, 1:
+				b.SampleIndex = (a.SampleIndex + 1 + r.Intn(len(p.SampleType)-1)) % len(p.SampleType)
+			case 2:
+				for b.Gran == a.Gran {
+					b.Gran = c17WebGrans[r.Intn(len(c17WebGrans))]
+				}
+			case 3:
+				b.NoInlines = !a.NoInlines
+			case 4:
+				b.ShowColumns = !a.ShowColumns
+			case 5:
+			default:
+				k := []string{"f", "i", "h", "s", "tf", "ti"}[r.Intn(6)]
+				if _, on := b.Filters[k]; on {
+					delete(b.Filters, k)
+				} else if k == "tf" || k == "ti" {
+					b.Filters[k] = []string{"v", "w", "k=v"}[r.Intn(3)]
+				} else if len(names) > 0 {
+					b.Filters[k] = names[r.Intn(len(names))]
+				}
+			}
+			if len(b.Filters) == 0 {
+				b.Filters = nil
+			}
+			return b
+		}
+		last := cs.req()
+		if r.Chance(30) && len(names) > 0 { // the checked request itself carries a filter
+			last.Filters = map[string]string{[]string{"f", "i", "h", "s"}[r.Intn(4)]: names[r.Intn(len(names))]}
+		}
+		cs.SampleIndex, cs.Gran, cs.NoInlines, cs.ShowColumns, cs.Filters = last.SampleIndex, last.Gran, last.NoInlines, last.ShowColumns, last.Filters
+		prev := last
+		for i, k := 0, 1+r.Intn(2); i < k; i++ {
+			prev = change(prev)
+			cs.Before = append([]c17Req{prev}, cs.Before...)
+		}
 	}
 	return cs
 }
